@@ -66,8 +66,15 @@ fn main() {
         // 4th argument: how many seeded multi-step buildings / corruption rounds (quick 60, thorough 600)
         let n: usize = a.get(4).and_then(|s| s.parse().ok()).unwrap_or(60);
         preds::set_scale(n);
-        let rep = preds::check(&a[2], seed);
-        println!("{}", rep);
+        // a panic of the crate under test outside the places where a predicate expects one: reported as such (the driver answers "undecided")
+        let pid = a[2].clone();
+        match std::panic::catch_unwind(move || preds::check(&pid, seed)) {
+            Ok(rep) => println!("{}", rep),
+            Err(e) => {
+                let msg = e.downcast_ref::<String>().cloned().or_else(|| e.downcast_ref::<&str>().map(|s| s.to_string())).unwrap_or_else(|| "panic".into());
+                println!("{}", serde_json::json!({"property": a[2], "harness_panic": msg}));
+            }
+        }
         return;
     }
     eprintln!("usage: vreplay eval <file> <loc> <k_exp> <area> <lm> | vreplay check <Cxx> [seed]");
